@@ -28,6 +28,7 @@ TABLE_FINDINGS = {
     "C19-F2": ("defined_refuted", "Proofs/BdF2Proofs.vo", "defined_full"),
     "C19-F3": ("logical_value_refuted", "Proofs/BdF3Proofs.vo", "logical_value_full"),
     "C19-F5": ("reset_call_refuted", "Proofs/BdF5Proofs.vo", "reset_call_full"),
+    "C19-F8": ("encrypt_counter_refuted", "Proofs/BdF8Proofs.vo", "encrypt_counter_full"),
 }
 
 
@@ -48,6 +49,8 @@ def repaired_findings(t):
     cmds = dict(t["cmds"])
     if cmds.get("reset") == "_reset" and cmds.get("call") == "_call":
         rep.add("C19-F5")
+    if t["encrypt_counter_from_address"]:
+        rep.add("C19-F8")
     return rep
 
 
@@ -202,6 +205,10 @@ def feats_bexpr(b, fenv):
 # ------------------------------------------------------------------------------------------------------
 # printers: AST -> BD text
 # ------------------------------------------------------------------------------------------------------
+# the lexer's '.*' / ".*" are greedy (C19-F6): outside the stream that exercises this, a line carries at most one quoted literal
+CHAR_BUDGET = [1]
+
+
 def lit_text(n, fmt, rng=None):
     assert n >= 0
     if fmt == "x":
@@ -210,7 +217,8 @@ def lit_text(n, fmt, rng=None):
         return f"{n // 1024}K"
     if fmt == "c":
         bs = n.to_bytes(max(1, (n.bit_length() + 7) // 8), "big")
-        if n > 0 and all(0x20 <= c < 0x7F and c not in (0x27, 0x22, 0x5C) for c in bs):
+        if n > 0 and CHAR_BUDGET[0] > 0 and all(0x20 <= c < 0x7F and c not in (0x27, 0x22, 0x5C) for c in bs):
+            CHAR_BUDGET[0] -= 1
             return "'" + bs.decode("ascii") + "'"
     if fmt == "t" and n in (0, 1):
         return {1: ["true", "yes"], 0: ["false", "no"]}[n][0 if rng is None else rng.randrange(2)]
@@ -512,14 +520,22 @@ def text_cexpr(c, rng, mode):
 
 
 def program_text(p, rng, mode="min", layout="lines"):
-    """layout 'lines': one definition / statement per line; 'packed': several per line (never two string
-    literals on one line unless p['allow_strings_on_one_line'])."""
+    """layout 'lines': one definition / statement per line; 'packed': several per line (never two quoted literals
+    on one line unless p['allow_strings_on_one_line'])."""
     out = []
     strings_ok = p.get("allow_strings_on_one_line", False)
 
+    def item(fn):
+        CHAR_BUDGET[0] = 99 if strings_ok else 1
+        return fn()
+
+    def quoted(txt):
+        return '"' in txt or "'" in txt
+
     def emit_defs(items):
         line, has_str = [], False
-        for txt, is_str in items:
+        for txt in items:
+            is_str = quoted(txt)
             if layout == "lines" or (is_str and has_str and not strings_ok) or (line and rng.random() < 0.35):
                 if line:
                     out.append("    " + " ".join(line))
@@ -533,20 +549,20 @@ def program_text(p, rng, mode="min", layout="lines"):
         k = b[0]
         if k == "options":
             out.append("options {")
-            emit_defs([(f"{name_of(n)} = {text_cexpr(c, rng, mode)};", c[0] == "str") for n, c in b[1]])
+            emit_defs([item(lambda n=n, c=c: f"{name_of(n)} = {text_cexpr(c, rng, mode)};") for n, c in b[1]])
             out.append("}")
         elif k == "constants":
             out.append("constants {")
-            emit_defs([(f"{name_of(n)} = {print_bexpr(c, 1, mode, rng)};", False) for n, c in b[1]])
+            emit_defs([item(lambda n=n, c=c: f"{name_of(n)} = {print_bexpr(c, 1, mode, rng)};") for n, c in b[1]])
             out.append("}")
         elif k == "sources":
             out.append("sources {")
-            emit_defs([(f"{name_of(n)} = " + (f'"{v[1]}"' if v[0] == "path" else f"extern({pe(v[1], rng, mode)})") + ";", v[0] == "path")
+            emit_defs([item(lambda n=n, v=v: f"{name_of(n)} = " + (f'"{v[1]}"' if v[0] == "path" else f"extern({pe(v[1], rng, mode)})") + ";")
                        for n, v in b[1]])
             out.append("}")
         else:
-            out.append(f"keyblob ({pe(b[1], rng, mode)}) {{")
-            opts = [f"{k2} = {text_cexpr(c, rng, mode)}" for k2, c in b[2]]
+            out.append(item(lambda: f"keyblob ({pe(b[1], rng, mode)}) {{"))
+            opts = [item(lambda k2=k2, c=c: f"{k2} = {text_cexpr(c, rng, mode)}") for k2, c in b[2]]
             if layout == "lines":
                 out.append("    (\n        " + ",\n        ".join(opts) + "\n    )")
             else:
@@ -555,9 +571,8 @@ def program_text(p, rng, mode="min", layout="lines"):
         if rng.random() < 0.2:
             out.append(rng.choice(["// comment with \"quotes\" and 1 + 2", "# hash comment", "/* block\n   comment */"]))
     for i, sts in p["sections"]:
-        out.append(f"section ({pe(i, rng, mode)}) {{")
-        items = [(text_stmt(s, rng, mode), (s[0] in ("load", "encrypt") and s[2 if s[0] == 'load' else 3][0] == "file")) for s in sts]
-        emit_defs(items)
+        out.append(item(lambda: f"section ({pe(i, rng, mode)}) {{"))
+        emit_defs([item(lambda s_=s_: text_stmt(s_, rng, mode)) for s_ in sts])
         out.append("}")
     return "\n".join(out) + "\n"
 
@@ -721,7 +736,7 @@ def spec_stmt(s, env, srcs, files, keyblobs):
         if (kb["end"] & 3) == 3:
             if addr % 16:
                 raise Refuse("encrypted load must be 16-byte aligned")
-            return (2, 0, addr, 0, 0, ("enc", kb, addr, data), 0)
+            return (2, 0, addr, 0, 0, ("enc", kb, addr, data, addr), 0)
         return (2, 0, addr, 0, 0, ("bytes", data), 0)
     raise ValueError(s)
 
@@ -799,7 +814,10 @@ def spec_program(p):
         for s in sts:
             f = stmt_feats(s, fenv, keyblobs)
             try:
-                cmds.append((spec_stmt(s, env, srcs, p["filedata"], [(a, b2) for a, b2, _ in keyblobs]), f))
+                sc = spec_stmt(s, env, srcs, p["filedata"], [(a, b2) for a, b2, _ in keyblobs])
+                if sc[5] is not None and sc[5][0] == "enc" and sc[5][2] != sc[5][1]["start"]:
+                    f = f | {"encrypt-offset"}
+                cmds.append((sc, f))
             except Refuse as ex:
                 cmds.append((("refuse", str(ex)), f))
             except Unspecified as ex:
@@ -1029,6 +1047,8 @@ class Gen:
         for f in ("blob-load", "reset", "call"):
             if f in features:
                 kinds += [f] * 6
+        if "encrypt-offset" in features and keyblob_ids:
+            kinds += ["encrypt"] * 8
         k = r.choice(kinds)
         ef = lambda v, d=2: self.expr_for(v, env, d)       # noqa: E731
         if k == "fill":
@@ -1084,7 +1104,8 @@ class Gen:
         if k == "encrypt" and (files or srcs):
             kid = r.choice(keyblob_ids)
             d = ("file", r.choice(sorted(files))) if (files and (r.random() < 0.5 or not srcs)) else ("src", r.choice(sorted(srcs)))
-            return ("encrypt", ef(kid, 1), None, d, ("addr", ef(self.kb_start.get(kid, 0x8000000), 1)))
+            off = 0x400 * r.choice([1, 2, 3]) if ("encrypt-offset" in features and r.random() < 0.8) else 0
+            return ("encrypt", ef(kid, 1), None, d, ("addr", ef(self.kb_start.get(kid, 0x8000000) + off, 1)))
         return ("erase_unsecure_all",)
 
     def program(self, features=(), big=False):
@@ -1107,6 +1128,10 @@ class Gen:
         layout_strings = 0
         nblocks = r.randrange(1, 6 if not big else 9)
         kinds = ["options"] + [r.choice(["options", "constants", "constants", "sources", "keyblob"]) for _ in range(nblocks - 1)]
+        if "encrypt-offset" in features:
+            kinds.append("keyblob")
+            if not files:
+                files[f"p{self.count}_f0.bin"] = bytes(r.getrandbits(8) for _ in range(r.choice([16, 17, 512, 600])))
         r.shuffle(kinds)
         specenv = {}
         for k in kinds:
@@ -1144,7 +1169,7 @@ class Gen:
             else:
                 kid = len(kb_ids)
                 start = r.choice([0x8000000, 0x8001000, 0x10000000, 0x0]) + 0x400 * r.randrange(0, 8)
-                end = start + r.choice([0x3FF, 0x7FF, 0xFFFF, 0x3FD, 0x7FD, 0x3FE])
+                end = start + (0xFFFF if "encrypt-offset" in features else r.choice([0x3FF, 0x7FF, 0xFFFF, 0x3FD, 0x7FD, 0x3FE]))
                 self.kb_start[kid] = start
                 opts = [("start", ("int", self.expr_for(start, specenv, 1))), ("end", ("int", self.expr_for(end, specenv, 1))),
                         ("key", ("str", self.hexblob(16))), ("counter", ("str", self.hexblob(8)))]
@@ -1229,7 +1254,7 @@ def mv_payload(v):
         return ("bytes", f[0])
     if kind == 2:
         return ("wrap", {"key": f[0].hex(), "counter": f[1].hex(), "start": f[2], "end": f[3]}, f[4])
-    return ("enc", {"key": f[0].hex(), "counter": f[1].hex(), "start": f[2], "end": f[3], "swap": bool(f[4])}, f[5], f[6])
+    return ("enc", {"key": f[0].hex(), "counter": f[1].hex(), "start": f[2], "end": f[3], "swap": bool(f[4])}, f[5], f[6], f[7])
 
 
 def model_cmds(v):
@@ -1240,8 +1265,9 @@ def model_cmds(v):
 
 
 def payload_agrees(spec_pl, impl_hex, faithful=False):
-    """Does SPSDK's LOAD payload realise the payload descriptor?  faithful=True: the model's descriptor (counter taken from
-    the key blob start, as the code does); False: the specification's (counter = system address of the data)."""
+    """Does SPSDK's LOAD payload realise the payload descriptor?  An ("enc", key blob, address, data, counter base)
+    descriptor names the counter word of the first block: the specification's is the system address of the data, the
+    faithful model's is the start of the key blob (C19-F8)."""
     if spec_pl is None:
         return impl_hex is None
     if impl_hex is None:
@@ -1251,8 +1277,7 @@ def payload_agrees(spec_pl, impl_hex, faithful=False):
         return data == bytes(spec_pl[1])
     if spec_pl[0] == "wrap":
         return wrap_matches(data, spec_pl[1], bytes(spec_pl[2]))
-    kb, addr, plain = spec_pl[1], spec_pl[2], bytes(spec_pl[3])
-    base = (kb["start"] if faithful else addr)
+    kb, addr, plain, base = spec_pl[1], spec_pl[2], bytes(spec_pl[3]), spec_pl[4]
     return data == otfad_encrypt(kb, addr, plain, base, kb.get("swap", bool(kb.get("byte_swap", 0))))
 
 
@@ -1322,7 +1347,7 @@ def build_streams(tier, rng):
         p["layout"] = ["lines", "packed"][(i // 3) % 2]
         main.append(p)
     streams["programs of the supported subset"] = main
-    for f in ("int-size-suffix", "defined", "logical-operand-value", "blob-load", "reset", "call"):
+    for f in ("int-size-suffix", "defined", "logical-operand-value", "blob-load", "reset", "call", "encrypt-offset"):
         ps = []
         for i in range(n_feat):
             p = g.program((f,))
@@ -1356,13 +1381,17 @@ def expression_cases(tier, rng, g):
 def token_case(rng, g):
     """A random well-formed token sequence: an expression printed with required parentheses dropped at random
     (so the text means whatever the precedence rules say, not the tree it was printed from)."""
+    # shift counts must stay small on both sides (a count of 12**k would exhaust memory): a case uses either shifts or
+    # multiplication, never both, and a shift count never contains a shift
+    ops = [o for o in BINOPS if o not in ("<<", ">>")] if rng.random() < 0.65 else [o for o in BINOPS if o != "*"]
+
     def small(depth, no_shift=False):
         if depth <= 0 or rng.random() < 0.2:
             return ("lit", rng.randrange(0, 13))
         if rng.random() < 0.15:
             return (rng.choice(["neg", "neg", "pos"]), small(depth - 1, no_shift))
-        op = rng.choice([o for o in BINOPS if not (no_shift and o == "<<")])
-        return ("bin", op, small(depth - 1, no_shift), small(depth - 1, no_shift or op == "<<"))
+        op = rng.choice([o for o in ops if not (no_shift and o in ("<<", ">>"))])
+        return ("bin", op, small(depth - 1, no_shift), small(depth - 1, no_shift or op in ("<<", ">>")))
     e = small(rng.choice([2, 3, 4, 5]))
     text, toks = [], []
 
@@ -1416,9 +1445,10 @@ def token_case(rng, g):
 
 
 def lines_with_two_strings(text):
+    """two string literals, or two character literals, on one line (the greedy lexer rules of C19-F6 merge them)"""
     for ln in text.split("\n"):
         code = ln.split("//")[0].split("#")[0]
-        if code.count('"') >= 4:
+        if code.count('"') >= 4 or code.count("'") >= 4:
             return True
     return False
 
